@@ -409,6 +409,7 @@ func RunCheck(id, tier string, nworkers int) int {
 	hashes := map[string]*[2]map[uint64]struct{}{}
 	var workerFailures []string
 	var lone []Violation
+	var loneSpecs []*loneSpec
 	infraErr := false
 	for w := 0; w < nworkers; w++ {
 		if results[w].err != nil {
@@ -417,15 +418,10 @@ func RunCheck(id, tier string, nworkers int) int {
 			if strings.Contains(results[w].tail, "engine:") {
 				infraErr = true
 			}
-			// the execution the worker was in when it died or gave up is decided alone in a fresh process
-			if phase, prefix, stuck := readProgress(filepath.Join(tmp, fmt.Sprintf("w%d.json.progress", w))); phase != "" {
-				if how := decideLoneExecution(self, id, tier, phase, prefix); how != "" {
-					lone = append(lone, Violation{Property: id, Sig: fmt.Sprintf("%s:%s:operation-does-not-return[%s]", id, phase, how), Choices: prefix,
-						Detail: map[string]any{"phase": phase, "worker": fmt.Sprintf("%d/%d", w, nworkers), "worker_gave_up_after_exec_limit": stuck,
-							"confirmation": "the execution was run again, alone, in a fresh process with twice the limit (twice if the process died) and did not return"}})
-				} else {
-					workerFailures = append(workerFailures, fmt.Sprintf("worker %d: the execution it was in (phase %s, prefix %v) returns when run alone: no verdict", w, phase, prefix))
-				}
+			// the execution the worker was in when it died or gave up is decided alone in a fresh process (below)
+			if sp := readLone(filepath.Join(tmp, fmt.Sprintf("w%d.json.progress", w))); sp != nil {
+				sp.worker = w
+				loneSpecs = append(loneSpecs, sp)
 			}
 			// what the worker had finished before is still used
 		}
@@ -441,7 +437,7 @@ func RunCheck(id, tier string, nworkers int) int {
 			workerFailures = append(workerFailures, fmt.Sprintf("worker %d: %v", w, err))
 			continue
 		}
-		if err := readHashes(filepath.Join(tmp, fmt.Sprintf("w%d.json.h", w)), hashes); err != nil {
+		if err := readHashes(filepath.Join(tmp, fmt.Sprintf("w%d.json.h", w)), hashes); err != nil && results[w].err == nil {
 			workerFailures = append(workerFailures, fmt.Sprintf("worker %d hashes: %v", w, err))
 		}
 		for name, st := range wo.Phases {
@@ -475,6 +471,46 @@ func RunCheck(id, tier string, nworkers int) int {
 		}
 	}
 	_ = infraErr
+	// executions that dead or stuck workers were in: at most two distinct ones per phase are decided (in
+	// parallel, each alone in its own fresh process); a hang usually stops every worker at its first
+	// execution of the same kind
+	{
+		perPhase := map[string]int{}
+		seen := map[string]bool{}
+		var pick []*loneSpec
+		for _, sp := range loneSpecs {
+			key := fmt.Sprint(sp.Phase, sp.Prefix, sp.Init, sp.Ops)
+			if seen[key] || perPhase[sp.Phase] >= 2 {
+				continue
+			}
+			seen[key] = true
+			perPhase[sp.Phase]++
+			pick = append(pick, sp)
+		}
+		hows := make([]string, len(pick))
+		var lw sync.WaitGroup
+		for i, sp := range pick {
+			lw.Add(1)
+			go func(i int, sp *loneSpec) {
+				defer lw.Done()
+				hows[i] = decideLone(self, id, tier, sp)
+			}(i, sp)
+		}
+		lw.Wait()
+		for i, sp := range pick {
+			if hows[i] != "" {
+				d := map[string]any{"phase": sp.Phase, "worker": fmt.Sprintf("%d/%d", sp.worker, nworkers), "worker_gave_up_after_exec_limit": sp.Stuck,
+					"workers_that_stopped_in_this_phase": len(loneSpecs),
+					"confirmation":                       "the execution was run again, alone, in a fresh process with twice the limit (twice if the process died) and did not return"}
+				if sp.BFS {
+					d["trace_init"], d["trace_ops"] = sp.Init, sp.Ops
+				}
+				lone = append(lone, Violation{Property: id, Sig: fmt.Sprintf("%s:%s:operation-does-not-return[%s]", id, sp.Phase, hows[i]), Choices: sp.Prefix, Detail: d})
+			} else {
+				workerFailures = append(workerFailures, fmt.Sprintf("worker %d: the execution it was in (phase %s, %v %v %v) returns when run alone: no verdict", sp.worker, sp.Phase, sp.Prefix, sp.Init, sp.Ops))
+			}
+		}
+	}
 
 	// confirm violations by replaying each 5 times in this process
 	known, err := loadKnown()
@@ -874,7 +910,23 @@ func RunReplay(path string) int {
 		var vs []Violation
 		if strings.Contains(r.Violation.Sig, ":operation-does-not-return[") {
 			self, _ := os.Executable()
-			if how := decideLoneExecution(self, r.Property, r.Tier, name, r.Violation.Choices); how != "" {
+			sp := &loneSpec{Phase: name, Prefix: r.Violation.Choices}
+			if _, isBFS := r.Violation.Detail["trace_ops"]; isBFS {
+				sp.BFS = true
+				if a, ok := r.Violation.Detail["trace_init"].([]any); ok {
+					for _, x := range a {
+						sp.Init = append(sp.Init, fmt.Sprint(x))
+					}
+				}
+				if a, ok := r.Violation.Detail["trace_ops"].([]any); ok {
+					for _, x := range a {
+						if f, ok := x.(float64); ok {
+							sp.Ops = append(sp.Ops, int(f))
+						}
+					}
+				}
+			}
+			if how := decideLone(self, r.Property, r.Tier, sp); how != "" {
 				fmt.Printf("VIOLATION property=%s replay=%s\n  sig=%s\n  detail=the execution did not return when run alone in a fresh process (%s)\n", r.Property, path, r.Violation.Sig, how)
 				return 1
 			}
